@@ -595,12 +595,17 @@ func (r *runner) step(s Step) (flow, error) {
 func (r *runner) wait() (flow, error) {
 	db := r.db
 	_, st, detail := call(r.lg, func() bool {
+		quiet := 0
 		for i := 0; i < 1500; i++ {
 			m := db.Metrics()
-			if m.Compact.NumInProgress == 0 && m.Flush.NumInProgress == 0 && m.MemTable.ZombieCount == 0 {
-				return true
+			if m.Compact.NumInProgress == 0 && m.Flush.NumInProgress == 0 {
+				if quiet++; quiet >= 2 {
+					return true
+				}
+			} else {
+				quiet = 0
 			}
-			time.Sleep(200 * time.Microsecond)
+			time.Sleep(100 * time.Microsecond)
 		}
 		return false
 	})
@@ -896,6 +901,9 @@ func (r *runner) run() error {
 func exec(p Plan) (evid.Outcome, error) {
 	mem := vfs.NewCrashableMem()
 	inj := newInjector(p.Rules)
+	if !p.NoExclude {
+		inj.suppress = knownFindingClass(func(sig string) bool { return evid.FindingActive("C43", sig) })
+	}
 	r := &runner{p: &p, mem: mem, inj: inj, fs: errorfs.Wrap(mem, inj), ev: &events{},
 		versions: []*dbm.State{dbm.NewState()}, labels: map[string]bool{}, C: map[string]int{}}
 	verr := r.run()
@@ -931,6 +939,16 @@ func exec(p Plan) (evid.Outcome, error) {
 	}
 	sort.Strings(out.Labels)
 	out.Counters = r.C
+	inj.mu.Lock()
+	// A case that met an excluded class: the fault was withheld, everything else
+	// was still checked (a violation is still reported), but the case is not
+	// counted as evidence.
+	for _, sig := range []string{SigCompactFirst, SigCompactSaveValue} {
+		if inj.suppressed[sig] > 0 && out.Excluded == "" {
+			out.Excluded = sig
+		}
+	}
+	inj.mu.Unlock()
 	out.NonTrivial = nf > 0 && (r.fgEffect || bg) && !r.labels["inconclusive-timeout"]
 	return out, verr
 }
